@@ -646,7 +646,7 @@ theorem plain_reply (k : Nat) (b : Bool) : ∀ e ∈ [Ev.reply k b], e.plain := 
 theorem stopPhase_nil {s : St} (h : s.stopQ = []) : stopPhase s = ({ s with stopWaker := true }, false) := by
   simp only [stopPhase, h]
 theorem stopPhase_underflow {s : St} {k : Nat} {g : Bool} {rest : List (Nat × Bool)} (h : s.stopQ = (k, g) :: rest)
-    (h0 : s.raw = 0) : stopPhase s = (setFault { s with stopQ := rest } .underflow, true) := by
+    (h0 : s.raw = 0) : stopPhase s = (setFault (emit { s with stopQ := rest } [.replyGone k]) .underflow, true) := by
   simp only [stopPhase, h, h0, if_true]
 theorem stopPhase_idle {s : St} {k : Nat} {g : Bool} {rest : List (Nat × Bool)} (h : s.stopQ = (k, g) :: rest)
     (h0 : s.raw ≠ 0) (h1 : Src.wcTotal s.raw = 0) :
@@ -669,7 +669,8 @@ theorem Good.stopPhase {s : St} (h : Good s) : Good (stopPhase s).1 := by
     obtain ⟨k, g⟩ := a
     by_cases h0 : s.raw = 0
     · rw [stopPhase_underflow hq h0]
-      exact Good.setFault (s := { s with stopQ := rest }) ⟨h.svc, h.lg.guarded, h.lg.fifo, h.lg.pairs⟩ _
+      refine Good.setFault (s := emit { s with stopQ := rest } [.replyGone k]) ⟨h.svc, h.lg.plain (s' := emit { s with stopQ := rest } [.replyGone k]) [.replyGone k] ?_ rfl rfl rfl rfl⟩ _
+      intro e he; simp at he; subst he; exact ⟨rfl, rfl, rfl, rfl⟩
     · by_cases h1 : Src.wcTotal s.raw = 0
       · rw [stopPhase_idle hq h0 h1]
         apply GoodLog.finish
@@ -741,35 +742,26 @@ theorem release_svcOK {s : St} (q : List Conn) (h : SvcOK s) : SvcOK (release s 
   unfold SvcOK AllPolled at h ⊢
   rw [hc.1, hc.2.1, hc.2.2.2.1, hc.2.2.2.2.2.2.2.2.2.2.2.1]; exact h
 
-theorem Good.shutdownArm {s : St} (h : Good s) (t sf tx : Nat) (hst : s.state = .shutdown t sf tx) :
+theorem Good.shutdownArm {s : St} (h : Good s) (t sf tx : Nat) :
     Good (shutdownArm s t sf tx) := by
   have hr : Good (release s s.queue) := ⟨release_svcOK _ h.svc, h.lg.release⟩
-  have hst' : (release s s.queue).state = .shutdown t sf tx := by
-    obtain ⟨hc, _⟩ := release_spec s.queue s
-    simp only [core3, Prod.mk.injEq] at hc; rw [hc.2.2.2.1]; exact hst
+  have hg2 : Good (drained s) := by
+    unfold drained; split
+    · exact ⟨hr.svc, hr.lg.guarded, hr.lg.fifo, hr.lg.pairs⟩
+    · exact hr
   simp only [ActixNet.Worker.shutdownArm]
   split
   · exact hr
-  · generalize hs2 : (if (release s s.queue).chanOpen = true then { (release s s.queue) with connWaker := true } else release s s.queue) = s2
-    have hg2 : Good s2 := by
-      subst hs2; split
-      · exact ⟨hr.svc, hr.lg.guarded, hr.lg.fifo, hr.lg.pairs⟩
-      · exact hr
-    have hst2 : s2.state = .shutdown t sf tx := by subst hs2; split <;> exact hst'
-    split
+  · split
     · exact hg2
     · split
       · exact hg2.setFault _
       · split
-        · exact (hg2.lg.plain (s' := emit s2 [.reply tx true]) [.reply tx true] (plain_reply _ _) rfl rfl rfl rfl).finish _
+        · exact (hg2.lg.plain (s' := emit (drained s) [.reply tx true]) [.reply tx true] (plain_reply _ _) rfl rfl rfl rfl).finish _
         · split
-          · exact (hg2.lg.plain (s' := emit s2 [.reply tx false]) [.reply tx false] (plain_reply _ _) rfl rfl rfl rfl).finish _
-          · refine ⟨Or.inr trivial, hg2.lg.plain [.armTimer (s2.now + Src.wkTickNextMs)] ?_ rfl rfl rfl rfl⟩
+          · exact (hg2.lg.plain (s' := emit (drained s) [.reply tx false]) [.reply tx false] (plain_reply _ _) rfl rfl rfl rfl).finish _
+          · refine ⟨Or.inr trivial, hg2.lg.plain [.armTimer ((drained s).now + Src.wkTickNextMs)] ?_ rfl rfl rfl rfl⟩
             intro e he; simp at he; subst he; exact ⟨rfl, rfl, rfl, rfl⟩
-
-
-
-
 
 theorem arm_unavail_true {s s1 : St} (hst : s.state = .unavailable) (h : sweep s = (s1, .ok true)) :
     arm s = ({ s1 with state := .available }, true) := by simp only [arm, hst, h]
@@ -894,7 +886,7 @@ theorem Good.arm {s : St} (h : Good s) (hf : s.finished = false) :
         exact ⟨Good.setFault (s := emit s [.facPoll tok .err]) ⟨h.svc, h.lg.plain (s' := emit s [.facPoll tok .err]) _ (plain_fac tok .err) rfl rfl rfl rfl⟩ _, by simp⟩
   | shutdown t sf tx =>
     rw [arm_shutdown hst]
-    exact ⟨h.shutdownArm t sf tx hst, by simp⟩
+    exact ⟨h.shutdownArm t sf tx, by simp⟩
   | available =>
     rw [hst] at hsv
     have hsp := availLoop_spec s.queue s hsv
@@ -1031,10 +1023,17 @@ theorem shutdownArm_n (s : St) (t sf tx : Nat) : (shutdownArm s t sf tx).n = s.n
   have hr : (release s s.queue).n = s.n := by
     obtain ⟨hc, _⟩ := release_spec s.queue s
     simp only [core3, Prod.mk.injEq] at hc; exact hc.1
+  have hd : (drained s).n = s.n := by unfold drained; split <;> exact hr
   simp only [shutdownArm]
   split
   · exact hr
-  · split <;> split <;> first | exact hr | (split <;> first | exact hr | (split <;> first | exact hr | (split <;> exact hr)))
+  · split
+    · exact hd
+    · split
+      · exact hd
+      · split
+        · exact hd
+        · split <;> exact hd
 
 theorem stopPhase_n (s : St) : (stopPhase s).1.n = s.n := by
   cases hq : s.stopQ with
@@ -1269,6 +1268,801 @@ theorem pollW_unavailable_calm {s : St} (hst : s.state = .unavailable) (hp : All
   refine ⟨a2, by rw [a3]; show s1.inflight ++ s1.queue = _; rw [c9, c4], a4.trans (c16.trans hfl), a5.trans (c13.trans hfin), evs1 ++ evs2, ?_, ?_⟩
   · rw [a6]; show s1.log ++ evs2 = _; rw [hl1]; simp
   · rw [callsOf_append, callsOf_PR he1.isPR, a7]; show s1.queue = _; exact c4
+
+
+
+
+/-! ### C06, worker half: the `Stop` handler and the `Shutdown` arm, exactly -/
+
+theorem pollW_of_stop {s : St} (h : (stopPhase s).2 = true) (f : Nat) : pollW (f + 1) s = (stopPhase s).1 := by
+  simp [pollW, body, h]
+
+theorem pollW_stop_idle {s : St} {k : Nat} {g : Bool} {rest : List (Nat × Bool)} (hq : s.stopQ = (k, g) :: rest)
+    (h0 : s.raw ≠ 0) (h1 : Src.wcTotal s.raw = 0) (f : Nat) :
+    pollW (f + 1) s = finish (emit { s with stopQ := rest } [.reply k true]) false := by
+  rw [pollW_of_stop (by rw [stopPhase_idle hq h0 h1]), stopPhase_idle hq h0 h1]
+
+theorem pollW_stop_forced {s : St} {k : Nat} {rest : List (Nat × Bool)} (hq : s.stopQ = (k, false) :: rest)
+    (h0 : s.raw ≠ 0) (h1 : Src.wcTotal s.raw ≠ 0) (f : Nat) :
+    pollW (f + 1) s = finish (emit (shutdownSvcs { s with stopQ := rest } true) [.reply k false]) false := by
+  rw [pollW_of_stop (by rw [stopPhase_forced hq h0 h1]), stopPhase_forced hq h0 h1]
+
+theorem pollW_stop_graceful {s : St} {k : Nat} {rest : List (Nat × Bool)} (hq : s.stopQ = (k, true) :: rest)
+    (h0 : s.raw ≠ 0) (h1 : Src.wcTotal s.raw ≠ 0) (hfl : s.fault = none) (f : Nat) :
+    pollW (f + 1) s = shutdownArm ({ (emit (shutdownSvcs { s with stopQ := rest } false) (stateTx s.state ++ [.armTimer (s.now + Src.wkTickFirstMs)])) with
+      state := .shutdown (s.now + Src.wkTickFirstMs) s.now k }) (s.now + Src.wkTickFirstMs) s.now k := by
+  have hb : body s = arm ({ (emit (shutdownSvcs { s with stopQ := rest } false) (stateTx s.state ++ [.armTimer (s.now + Src.wkTickFirstMs)])) with
+      state := .shutdown (s.now + Src.wkTickFirstMs) s.now k }) := by
+    unfold body
+    rw [stopPhase_graceful hq h0 h1]
+    have : (emit (shutdownSvcs { s with stopQ := rest } false) (stateTx s.state ++ [.armTimer (s.now + Src.wkTickFirstMs)])).fault = none := hfl
+    simp [this]
+  simp only [pollW]
+  rw [hb, arm_shutdown rfl]
+  simp
+
+theorem pollW_shutdown_nostop {s : St} {t sf tx : Nat} (hst : s.state = .shutdown t sf tx) (hq : s.stopQ = [])
+    (hfl : s.fault = none) (f : Nat) : pollW (f + 1) s = shutdownArm { s with stopWaker := true } t sf tx := by
+  simp only [pollW]
+  rw [body_nostop hq hfl, arm_shutdown (s := { s with stopWaker := true }) hst]
+  simp
+
+/-- releasing a queue the counter covers: every connection is released, the counter goes down by one each -/
+theorem release_ok (q : List Conn) : ∀ (s : St), q.length ≤ s.raw →
+    release s q = { s with queue := [], raw := s.raw - q.length, log := s.log ++ q.map .released } := by
+  induction q with
+  | nil => intro s _; simp [release]
+  | cons c q ih =>
+    intro s h
+    simp only [List.length_cons] at h
+    simp only [release]
+    rw [if_neg (by omega), ih _ (by simp [emit]; omega)]
+    simp [emit, Nat.sub_sub, Nat.add_comm]
+
+
+
+
+theorem callsOf_nil : callsOf [] = [] := rfl
+
+theorem callsOf_plain {m : List Ev} (h : ∀ e ∈ m, e.isCall = false) : callsOf m = [] := by
+  simp only [callsOf, List.filterMap_eq_nil_iff]
+  intro e he; have := h e he
+  cases e <;> simp_all [Ev.isCall]
+
+/-- what the shutdown path leaves untouched -/
+def core4 (s : St) := (s.n, s.timeout, s.chanOpen, s.now, s.inflight, s.sent, s.nextConn, s.nextStop)
+
+theorem release_core4 (s : St) (q : List Conn) : core4 (release s q) = core4 s := by
+  obtain ⟨hc, _⟩ := release_spec q s
+  simp only [core3, Prod.mk.injEq] at hc
+  simp only [core4, Prod.mk.injEq]
+  exact ⟨hc.1, hc.2.2.1, hc.2.2.2.2.1, hc.2.2.2.2.2.2.1, hc.2.2.2.2.2.2.2.1, hc.2.2.2.2.2.2.2.2.1, hc.2.2.2.2.2.2.2.2.2.1, hc.2.2.2.2.2.2.2.2.2.2.1⟩
+
+theorem release_quiet (s : St) (q : List Conn) : ∃ evs, (release s q).log = s.log ++ evs ∧ callsOf evs = [] := by
+  obtain ⟨_, cs, h2, _⟩ := release_spec q s
+  exact ⟨_, h2, callsOf_plain (fun e he => (released_nocall _ e he).1)⟩
+
+theorem drained_core4 (s : St) : core4 (drained s) = core4 s := by
+  unfold drained; split
+  · exact release_core4 s s.queue
+  · exact release_core4 s s.queue
+
+theorem drained_quiet (s : St) : ∃ evs, (drained s).log = s.log ++ evs ∧ callsOf evs = [] := by
+  unfold drained; split
+  · exact release_quiet s s.queue
+  · exact release_quiet s s.queue
+
+theorem finish_core4 (s : St) (b : Bool) : core4 (finish s b) = core4 s := rfl
+
+theorem finish_quiet (s : St) (b : Bool) : ∃ evs, (finish s b).log = s.log ++ evs ∧ callsOf evs = [] := by
+  refine ⟨[.done] ++ ((if b then [] else stateTx s.state) ++ goneEvs s.stopQ) ++ s.queue.map .dropped, by simp [finish, emit], ?_⟩
+  apply callsOf_plain
+  intro e he
+  simp only [List.mem_append, List.mem_singleton] at he
+  rcases he with (rfl | he | he) | he
+  · rfl
+  · split at he
+    · simp at he
+    · exact (stateTx_plain _ e he).1
+  · exact (goneEvs_plain _ e he).1
+  · exact (dropped_nocall _ e he).1
+
+theorem shutdownArm_fault {s : St} (t sf tx : Nat) (h : (release s s.queue).fault.isSome = true) :
+    shutdownArm s t sf tx = release s s.queue := by simp only [shutdownArm, h, if_true]
+theorem shutdownArm_pending {s : St} {t : Nat} (sf tx : Nat) (h : (release s s.queue).fault.isSome = false) (h1 : (drained s).now < t) :
+    shutdownArm s t sf tx = drained s := by simp [shutdownArm, h, h1]
+theorem shutdownArm_underflow {s : St} {t : Nat} (sf tx : Nat) (h : (release s s.queue).fault.isSome = false) (h1 : ¬ (drained s).now < t)
+    (h2 : (drained s).raw = 0) : shutdownArm s t sf tx = setFault (drained s) .underflow := by simp [shutdownArm, h, h1, h2]
+theorem shutdownArm_true {s : St} {t : Nat} (sf tx : Nat) (h : (release s s.queue).fault.isSome = false) (h1 : ¬ (drained s).now < t)
+    (h2 : (drained s).raw ≠ 0) (h3 : Src.wcTotal (drained s).raw = 0) :
+    shutdownArm s t sf tx = finish (emit (drained s) [.reply tx true]) true := by simp [shutdownArm, h, h1, h2, h3]
+theorem shutdownArm_false {s : St} {t sf : Nat} (tx : Nat) (h : (release s s.queue).fault.isSome = false) (h1 : ¬ (drained s).now < t)
+    (h2 : (drained s).raw ≠ 0) (h3 : Src.wcTotal (drained s).raw ≠ 0) (h4 : Src.wkTimedOut ((drained s).now - sf) (drained s).timeout = true) :
+    shutdownArm s t sf tx = finish (emit (drained s) [.reply tx false]) true := by simp [shutdownArm, h, h1, h2, h3, h4]
+theorem shutdownArm_rearm {s : St} {t sf : Nat} (tx : Nat) (h : (release s s.queue).fault.isSome = false) (h1 : ¬ (drained s).now < t)
+    (h2 : (drained s).raw ≠ 0) (h3 : Src.wcTotal (drained s).raw ≠ 0) (h4 : Src.wkTimedOut ((drained s).now - sf) (drained s).timeout = false) :
+    shutdownArm s t sf tx = { (emit (drained s) [.armTimer ((drained s).now + Src.wkTickNextMs)]) with state := .shutdown ((drained s).now + Src.wkTickNextMs) sf tx } := by
+  simp [shutdownArm, h, h1, h2, h3, h4]
+
+/-- the `Shutdown` arm hands no connection to a service and does not touch the connections in progress -/
+theorem shutdownArm_quiet (s : St) (t sf tx : Nat) :
+    core4 (shutdownArm s t sf tx) = core4 s ∧ ∃ evs, (shutdownArm s t sf tx).log = s.log ++ evs ∧ callsOf evs = [] := by
+  obtain ⟨e1, h1, h2⟩ := drained_quiet s
+  have hd := drained_core4 s
+  cases hf : (release s s.queue).fault.isSome with
+  | true => rw [shutdownArm_fault t sf tx hf]; exact ⟨release_core4 _ _, release_quiet _ _⟩
+  | false =>
+    by_cases c1 : (drained s).now < t
+    · rw [shutdownArm_pending sf tx hf c1]; exact ⟨hd, e1, h1, h2⟩
+    · by_cases c2 : (drained s).raw = 0
+      · rw [shutdownArm_underflow sf tx hf c1 c2]; exact ⟨hd, e1, h1, h2⟩
+      · by_cases c3 : Src.wcTotal (drained s).raw = 0
+        · rw [shutdownArm_true sf tx hf c1 c2 c3]
+          obtain ⟨e2, h3, h4⟩ := finish_quiet (emit (drained s) [.reply tx true]) true
+          exact ⟨hd, e1 ++ [.reply tx true] ++ e2, by rw [h3]; simp [h1], by rw [callsOf_append, callsOf_append, h2, h4]; rfl⟩
+        · cases c4 : Src.wkTimedOut ((drained s).now - sf) (drained s).timeout with
+          | true =>
+            rw [shutdownArm_false tx hf c1 c2 c3 c4]
+            obtain ⟨e2, h3, h4⟩ := finish_quiet (emit (drained s) [.reply tx false]) true
+            exact ⟨hd, e1 ++ [.reply tx false] ++ e2, by rw [h3]; simp [h1], by rw [callsOf_append, callsOf_append, h2, h4]; rfl⟩
+          | false =>
+            rw [shutdownArm_rearm tx hf c1 c2 c3 c4]
+            exact ⟨hd, e1 ++ [.armTimer ((drained s).now + Src.wkTickNextMs)], by simp [emit, h1], by rw [callsOf_append, h2]; rfl⟩
+
+/-- **queued connections are released, never served, and connections in progress are left alone**
+by every `poll` of a worker that is shutting down — also when further `Stop` messages arrive -/
+theorem pollW_shutdown_quiet {s : St} {t sf tx : Nat} (hst : s.state = .shutdown t sf tx) (hfl : s.fault = none) (f : Nat) :
+    core4 (pollW (f + 1) s) = core4 s ∧ ∃ evs, (pollW (f + 1) s).log = s.log ++ evs ∧ callsOf evs = [] := by
+  cases hq : s.stopQ with
+  | nil =>
+    rw [pollW_shutdown_nostop hst hq hfl]
+    exact shutdownArm_quiet { s with stopWaker := true } t sf tx
+  | cons a rest =>
+    obtain ⟨k, g⟩ := a
+    by_cases h0 : s.raw = 0
+    · rw [pollW_of_stop (by rw [stopPhase_underflow hq h0]), stopPhase_underflow hq h0]
+      exact ⟨rfl, [.replyGone k], by simp [setFault, emit], rfl⟩
+    · by_cases h1 : Src.wcTotal s.raw = 0
+      · rw [pollW_stop_idle hq h0 h1]
+        obtain ⟨e2, h3, h4⟩ := finish_quiet (emit { s with stopQ := rest } [.reply k true]) false
+        exact ⟨rfl, [.reply k true] ++ e2, by rw [h3]; simp [emit], by rw [callsOf_append, h4]; rfl⟩
+      · cases g with
+        | false =>
+          rw [pollW_stop_forced hq h0 h1]
+          obtain ⟨e2, h3, h4⟩ := finish_quiet (emit (shutdownSvcs { s with stopQ := rest } true) [.reply k false]) false
+          exact ⟨rfl, [.reply k false] ++ e2, by rw [h3]; simp [emit, shutdownSvcs], by rw [callsOf_append, h4]; rfl⟩
+        | true =>
+          rw [pollW_stop_graceful hq h0 h1 hfl]
+          obtain ⟨c, e2, h3, h4⟩ := shutdownArm_quiet ({ (emit (shutdownSvcs { s with stopQ := rest } false) (stateTx s.state ++ [.armTimer (s.now + Src.wkTickFirstMs)])) with
+            state := .shutdown (s.now + Src.wkTickFirstMs) s.now k }) (s.now + Src.wkTickFirstMs) s.now k
+          refine ⟨c.trans ?_, (stateTx s.state ++ [.armTimer (s.now + Src.wkTickFirstMs)]) ++ e2, by rw [h3]; simp [emit, shutdownSvcs], ?_⟩
+          · rfl
+          · rw [callsOf_append, h4, List.append_nil]
+            apply callsOf_plain
+            intro e he; simp only [List.mem_append, List.mem_singleton] at he
+            rcases he with he | rfl
+            · exact (stateTx_plain _ e he).1
+            · rfl
+
+
+
+
+theorem tickTime_mono (t0 : Nat) {a b : Nat} (h : a ≤ b) : tickTime t0 a ≤ tickTime t0 b := by
+  unfold tickTime
+  have : (a - 1) * Src.wkTickNextMs ≤ (b - 1) * Src.wkTickNextMs := Nat.mul_le_mul_right _ (by omega)
+  omega
+
+theorem tickTime_succ (t0 : Nat) {k : Nat} (hk : 1 ≤ k) : tickTime t0 (k + 1) = tickTime t0 k + Src.wkTickNextMs := by
+  unfold tickTime
+  have : k + 1 - 1 = (k - 1) + 1 := by omega
+  rw [this, Nat.add_mul]; omega
+
+theorem tickLoop_ge (T t0 : Nat) (fin : List (Option Nat)) (f : Nat) : ∀ k, tickTime t0 k ≤ (tickLoop T t0 fin k f).1 := by
+  induction f with
+  | zero => intro k; exact Nat.le_refl _
+  | succ f ih =>
+    intro k; simp only [tickLoop]
+    split
+    · exact Nat.le_refl _
+    · split
+      · exact Nat.le_refl _
+      · exact Nat.le_trans (tickTime_mono t0 (Nat.le_succ k)) (ih (k + 1))
+
+/-- at tick `lastTick T` the timeout has elapsed, whatever `T` -/
+theorem lastTick_timedOut (T t0 : Nat) : Src.wkTimedOut (tickTime t0 (lastTick T) - t0) T = true := by
+  simp only [Src.wkTimedOut, tickTime, lastTick, Src.wkTickNextMs, Src.wkTickFirstMs]
+  apply decide_eq_true
+  omega
+
+theorem lastTick_pos (T : Nat) : 1 ≤ lastTick T := Nat.le_add_left 1 _
+
+/-- from tick `k ≤ lastTick T` with enough fuel the loop answers no later than tick `lastTick T` -/
+theorem tickLoop_le (T t0 : Nat) (fin : List (Option Nat)) (f : Nat) : ∀ k, k ≤ lastTick T → lastTick T ≤ k + f →
+    (tickLoop T t0 fin k (f + 1)).1 ≤ tickTime t0 (lastTick T) := by
+  induction f with
+  | zero =>
+    intro k h1 h2
+    have : k = lastTick T := by omega
+    subst this
+    simp only [tickLoop]
+    split
+    · exact Nat.le_refl _
+    · rw [lastTick_timedOut]; simp
+  | succ f ih =>
+    intro k h1 h2
+    rw [tickLoop]
+    split
+    · exact tickTime_mono t0 h1
+    · split
+      · exact tickTime_mono t0 h1
+      · rename_i hto
+        have hne : k ≠ lastTick T := by
+          intro h; subst h; rw [lastTick_timedOut] at hto; simp at hto
+        exact ih (k + 1) (by omega) (by omega)
+
+/-- **stop always completes, with a bound**: for EVERY script — also one in which no connection ever
+ends — the worker replies no later than `t0 + first tick + ⌈T / tick⌉ · tick` -/
+theorem replyTime_bound (T t0 : Nat) (fin : List (Option Nat)) :
+    (replyTime T t0 fin).1 ≤ t0 + Src.wkTickFirstMs + ((T + Src.wkTickNextMs - 1) / Src.wkTickNextMs) * Src.wkTickNextMs := by
+  unfold replyTime
+  split
+  · simp only; omega
+  · have h := tickLoop_le T t0 fin (lastTick T - 1) 1 (lastTick_pos T) (by have := lastTick_pos T; omega)
+    have h2 : lastTick T - 1 + 1 = lastTick T := by have := lastTick_pos T; omega
+    rw [h2] at h
+    refine Nat.le_trans h ?_
+    unfold tickTime lastTick; simp
+
+theorem tickLoop_mono (T t0 : Nat) (fin fin' : List (Option Nat))
+    (hle : ∀ t, unfinished fin' t = 0 → unfinished fin t = 0) (f : Nat) :
+    ∀ k, (tickLoop T t0 fin k f).1 ≤ (tickLoop T t0 fin' k f).1 := by
+  induction f with
+  | zero => intro k; exact Nat.le_refl _
+  | succ f ih =>
+    intro k
+    by_cases h' : unfinished fin' (tickTime t0 k) = 0
+    · have h := hle _ h'
+      simp [tickLoop, h, h']
+    · by_cases h : unfinished fin (tickTime t0 k) = 0
+      · have : (tickLoop T t0 fin k (f + 1)).1 = tickTime t0 k := by simp [tickLoop, h]
+        rw [this]; exact tickLoop_ge T t0 fin' (f + 1) k
+      · simp only [tickLoop, h, h', if_false]
+        split
+        · exact Nat.le_refl _
+        · exact ih (k + 1)
+
+/-- **monotone**: if every connection ends no earlier, the reply comes no earlier -/
+theorem replyTime_mono (T t0 : Nat) (fin fin' : List (Option Nat))
+    (hle : ∀ t, unfinished fin' t = 0 → unfinished fin t = 0) :
+    (replyTime T t0 fin).1 ≤ (replyTime T t0 fin').1 := by
+  unfold replyTime
+  by_cases h' : unfinished fin' t0 = 0
+  · simp [h', hle _ h']
+  · by_cases h : unfinished fin t0 = 0
+    · simp only [h, h', if_true, if_false]
+      exact Nat.le_trans (by unfold tickTime; omega) (tickLoop_ge T t0 fin' (lastTick T) 1)
+    · simp only [h, h', if_false]; exact tickLoop_mono T t0 fin fin' hle _ 1
+
+/-- the reply value: `true` exactly when everything had ended at the reply time -/
+theorem tickLoop_value (T t0 : Nat) (fin : List (Option Nat)) (f : Nat) : ∀ k, k ≤ lastTick T → lastTick T ≤ k + f →
+    ((tickLoop T t0 fin k (f + 1)).2 = true ↔ unfinished fin (tickLoop T t0 fin k (f + 1)).1 = 0) ∧
+    ((tickLoop T t0 fin k (f + 1)).2 = false → T ≤ (tickLoop T t0 fin k (f + 1)).1 - t0) := by
+  induction f with
+  | zero =>
+    intro k h1 h2
+    have : k = lastTick T := by omega
+    subst this
+    simp only [tickLoop]
+    split
+    · rename_i h; simp [h]
+    · rename_i h
+      have hto := lastTick_timedOut T t0
+      rw [hto]; simp only [if_true]
+      refine ⟨by simp [h], fun _ => ?_⟩
+      simpa [Src.wkTimedOut] using hto
+  | succ f ih =>
+    intro k h1 h2
+    rw [tickLoop]
+    split
+    · rename_i h; simp [h]
+    · rename_i h
+      split
+      · rename_i hto
+        refine ⟨by simp [h], fun _ => ?_⟩
+        simpa [Src.wkTimedOut] using hto
+      · rename_i hto
+        have hne : k ≠ lastTick T := by
+          intro h; subst h; rw [lastTick_timedOut] at hto; simp at hto
+        exact ih (k + 1) (by omega) (by omega)
+
+
+
+
+theorem drained_empty {s : St} (h : s.queue = []) :
+    (drained s).raw = s.raw ∧ (drained s).state = s.state ∧ (drained s).stopQ = s.stopQ ∧ (drained s).fault = s.fault ∧
+    (drained s).finished = s.finished ∧ (drained s).queue = [] ∧ (drained s).log = s.log ∧ (drained s).now = s.now ∧
+    (drained s).timeout = s.timeout ∧ (release s s.queue).fault = s.fault := by
+  unfold drained; rw [h]; simp only [release]
+  by_cases hc : s.chanOpen = true <;> simp [hc]
+
+/-- a worker in `Shutdown`, nothing else pending, whose tick timer fires at tick `k` -/
+structure Ticking (s : St) (sf tx k : Nat) : Prop where
+  st : s.state = .shutdown (tickTime sf k) sf tx
+  q : s.stopQ = []
+  queue : s.queue = []
+  fl : s.fault = none
+  fin : s.finished = false
+
+theorem mem_log_finish {s : St} {e : Ev} (b : Bool) (h : e ∈ s.log) : e ∈ (finish s b).log := by
+  simp [finish, emit, h]
+
+/-- one tick of the real `poll`, against one step of the functional tick loop -/
+theorem tick_step {s : St} {sf tx k : Nat} (h : Ticking s sf tx k) (hk : 1 ≤ k) (fin : List (Option Nat)) :
+    (unfinished fin (tickTime sf k) = 0 →
+      (pollW 1 (envTick s (tickTime sf k) fin)).finished = true ∧ (pollW 1 (envTick s (tickTime sf k) fin)).now = tickTime sf k ∧
+      .reply tx true ∈ (pollW 1 (envTick s (tickTime sf k) fin)).log) ∧
+    (unfinished fin (tickTime sf k) ≠ 0 → Src.wkTimedOut (tickTime sf k - sf) s.timeout = true →
+      (pollW 1 (envTick s (tickTime sf k) fin)).finished = true ∧ (pollW 1 (envTick s (tickTime sf k) fin)).now = tickTime sf k ∧
+      .reply tx false ∈ (pollW 1 (envTick s (tickTime sf k) fin)).log) ∧
+    (unfinished fin (tickTime sf k) ≠ 0 → Src.wkTimedOut (tickTime sf k - sf) s.timeout = false →
+      Ticking (pollW 1 (envTick s (tickTime sf k) fin)) sf tx (k + 1) ∧
+      (pollW 1 (envTick s (tickTime sf k) fin)).timeout = s.timeout) := by
+  generalize hu : unfinished fin (tickTime sf k) = u
+  have hst : (envTick s (tickTime sf k) fin).state = .shutdown (tickTime sf k) sf tx := h.st
+  rw [pollW_shutdown_nostop hst h.q h.fl 0]
+  generalize he : ({ (envTick s (tickTime sf k) fin) with stopWaker := true } : St) = e
+  have heq : e.queue = [] := by subst he; exact h.queue
+  obtain ⟨d1, d2, d3, d4, d5, d6, d7, d8, d9, d10⟩ := drained_empty heq
+  have hraw : e.raw = Src.wcInit + u := by subst he; simp [envTick, hu]
+  have hnow : e.now = tickTime sf k := by subst he; rfl
+  have hto : e.timeout = s.timeout := by subst he; rfl
+  have hfl : e.fault = none := by subst he; exact h.fl
+  have hf : (release e e.queue).fault.isSome = false := by rw [d10, hfl]; rfl
+  have c1 : ¬ (drained e).now < tickTime sf k := by rw [d8, hnow]; omega
+  have c2 : (drained e).raw ≠ 0 := by rw [d1, hraw]; simp [Src.wcInit]
+  have htot : Src.wcTotal (drained e).raw = u := by rw [d1, hraw]; simp [Src.wcTotal, Src.wcInit]
+  refine ⟨fun h0 => ?_, fun h0 h1 => ?_, fun h0 h1 => ?_⟩
+  · rw [shutdownArm_true sf tx hf c1 c2 (by rw [htot]; exact h0)]
+    exact ⟨rfl, by show (drained e).now = _; rw [d8, hnow], mem_log_finish _ (by simp [emit])⟩
+  · rw [shutdownArm_false tx hf c1 c2 (by rw [htot]; exact h0) (by rw [d8, d9, hnow, hto]; exact h1)]
+    exact ⟨rfl, by show (drained e).now = _; rw [d8, hnow], mem_log_finish _ (by simp [emit])⟩
+  · rw [shutdownArm_rearm tx hf c1 c2 (by rw [htot]; exact h0) (by rw [d8, d9, hnow, hto]; exact h1)]
+    refine ⟨⟨?_, d3.trans (by subst he; exact h.q), d6, d4.trans hfl, d5.trans (by subst he; exact h.fin)⟩, d9.trans hto⟩
+    show WState.shutdown ((drained e).now + Src.wkTickNextMs) sf tx = _
+    rw [d8, hnow, tickTime_succ sf hk]
+
+/-- **the real `poll`, polled at every tick, replies exactly when and what the functional tick loop says** -/
+theorem runTicks_refines (fin : List (Option Nat)) (sf tx : Nat) (f : Nat) : ∀ (k : Nat) (s : St), Ticking s sf tx k → 1 ≤ k →
+    k ≤ lastTick s.timeout → lastTick s.timeout ≤ k + f →
+    (runTicks fin sf s k (f + 1)).finished = true ∧
+    (runTicks fin sf s k (f + 1)).now = (tickLoop s.timeout sf fin k (f + 1)).1 ∧
+    .reply tx (tickLoop s.timeout sf fin k (f + 1)).2 ∈ (runTicks fin sf s k (f + 1)).log := by
+  induction f with
+  | zero =>
+    intro k s h hk h1 h2
+    have hkl : k = lastTick s.timeout := by omega
+    obtain ⟨a, b, _⟩ := tick_step h hk fin
+    simp only [runTicks, tickLoop]
+    by_cases hu : unfinished fin (tickTime sf k) = 0
+    · obtain ⟨a1, a2, a3⟩ := a hu
+      simp [a1, hu, a2, a3]
+    · have hto : Src.wkTimedOut (tickTime sf k - sf) s.timeout = true := by rw [hkl]; exact lastTick_timedOut _ _
+      obtain ⟨b1, b2, b3⟩ := b hu hto
+      simp [b1, hu, hto, b2, b3]
+  | succ f ih =>
+    intro k s h hk h1 h2
+    obtain ⟨a, b, c⟩ := tick_step h hk fin
+    rw [runTicks, tickLoop]
+    by_cases hu : unfinished fin (tickTime sf k) = 0
+    · obtain ⟨a1, a2, a3⟩ := a hu
+      simp [a1, hu, a2, a3]
+    · cases hto : Src.wkTimedOut (tickTime sf k - sf) s.timeout with
+      | true =>
+        obtain ⟨b1, b2, b3⟩ := b hu hto
+        simp [b1, hu, b2, b3]
+      | false =>
+        obtain ⟨c1, c2⟩ := c hu hto
+        have hne : k ≠ lastTick s.timeout := by
+          intro h; rw [h, lastTick_timedOut] at hto; simp at hto
+        have := ih (k + 1) _ c1 (by omega) (by rw [c2]; omega) (by rw [c2]; omega)
+        rw [c2] at this
+        simp only [c1.fin, hu, if_false, Bool.false_eq_true]
+        exact this
+
+
+
+
+def Ev.resolves (k : Nat) : Ev → Bool
+  | .reply k' _ => k' == k
+  | .replyGone k' => k' == k
+  | _ => false
+
+/-- the reply channel of stop number `k` has been answered or dropped -/
+def Resolved (s : St) (k : Nat) : Prop := ∃ e ∈ s.log, e.resolves k = true
+
+def holdsTx : WState → Nat → Prop
+  | .shutdown _ _ tx, k => tx = k
+  | _, _ => False
+
+/-- every `Stop` ever sent is still in the channel, or its reply sender is held by the `Shutdown`
+state of the running worker, or it has been answered / dropped -/
+structure Acc (s : St) : Prop where
+  fin : s.finished = true → s.stopQ = []
+  all : ∀ k, k < s.nextStop → (∃ g, (k, g) ∈ s.stopQ) ∨ (s.finished = false ∧ holdsTx s.state k) ∨ Resolved s k
+
+theorem Resolved.mono {s s' : St} {k : Nat} (h : Resolved s k) (hlog : ∃ evs, s'.log = s.log ++ evs) : Resolved s' k := by
+  obtain ⟨e, he, hr⟩ := h
+  obtain ⟨evs, hl⟩ := hlog
+  exact ⟨e, by rw [hl]; simp [he], hr⟩
+
+theorem Acc.frame {s s' : St} (h : Acc s) (hq : s'.stopQ = s.stopQ) (hn : s'.nextStop = s.nextStop) (hf : s'.finished = s.finished)
+    (hst : ∀ k, holdsTx s.state k → holdsTx s'.state k) (hlog : ∃ evs, s'.log = s.log ++ evs) : Acc s' := by
+  refine ⟨fun hfin => by rw [hq]; exact h.fin (hf ▸ hfin), fun k hk => ?_⟩
+  rcases h.all k (hn ▸ hk) with h1 | ⟨h2, h3⟩ | h4
+  · exact Or.inl (hq ▸ h1)
+  · exact Or.inr (Or.inl ⟨hf ▸ h2, hst k h3⟩)
+  · exact Or.inr (Or.inr (h4.mono hlog))
+
+theorem goneEvs_mem {q : List (Nat × Bool)} {k : Nat} {g : Bool} (h : (k, g) ∈ q) : Ev.replyGone k ∈ goneEvs q := by
+  induction q with
+  | nil => simp at h
+  | cons a t ih =>
+    obtain ⟨k', g'⟩ := a
+    simp only [List.mem_cons, Prod.mk.injEq] at h
+    rcases h with ⟨rfl, _⟩ | h
+    · simp [goneEvs]
+    · simp [goneEvs, ih h]
+
+theorem finish_log (s : St) (b : Bool) :
+    (finish s b).log = s.log ++ ([Ev.done] ++ ((if b then [] else stateTx s.state) ++ goneEvs s.stopQ) ++ s.queue.map .dropped) := by
+  simp [finish, emit]
+
+/-- finishing accounts for everything: queued stops and (unless already answered) the held one are dropped -/
+theorem Acc.finish {s : St} (h : Acc s) (b : Bool) (hb : b = true → ∀ k, holdsTx s.state k → Resolved s k) : Acc (finish s b) := by
+  refine ⟨fun _ => rfl, fun k hk => Or.inr (Or.inr ?_)⟩
+  have hmono : ∀ {k}, Resolved s k → Resolved (ActixNet.Worker.finish s b) k := fun h => h.mono ⟨_, finish_log s b⟩
+  rcases h.all k hk with ⟨g, h1⟩ | ⟨_, h3⟩ | h4
+  · exact ⟨.replyGone k, by rw [finish_log]; simp [goneEvs_mem h1], by simp [Ev.resolves]⟩
+  · cases b with
+    | true => exact hmono (hb rfl k h3)
+    | false =>
+      cases hst : s.state with
+      | shutdown t sf tx =>
+        rw [hst] at h3; simp only [holdsTx] at h3; subst h3
+        exact ⟨.replyGone tx, by rw [finish_log, hst]; simp [stateTx], by simp [Ev.resolves]⟩
+      | _ => rw [hst] at h3; simp [holdsTx] at h3
+  · exact hmono h4
+
+theorem Acc.setFault {s : St} (h : Acc s) (f : Fault) : Acc (setFault s f) := ⟨h.fin, h.all⟩
+
+theorem resolved_of_mem {s : St} {k : Nat} {e : Ev} (he : e ∈ s.log) (hr : e.resolves k = true) : Resolved s k := ⟨e, he, hr⟩
+
+theorem shutdownSvcs_acc {s : St} (h : Acc s) (f : Bool) : Acc (shutdownSvcs s f) := ⟨h.fin, h.all⟩
+
+theorem Acc.stopPhase {s : St} (h : Acc s) (hf : s.finished = false) : Acc (stopPhase s).1 := by
+  cases hq : s.stopQ with
+  | nil => rw [stopPhase_nil hq]; exact h.frame rfl rfl rfl (fun _ x => x) ⟨[], by simp⟩
+  | cons a rest =>
+    obtain ⟨k0, g⟩ := a
+    -- the state after the pop, with the popped stop answered or dropped at once (event `e0`)
+    have hpop : ∀ (e0 : Ev), e0.resolves k0 = true → Acc (emit { s with stopQ := rest } [e0]) := by
+      intro e0 he0
+      refine ⟨fun hfin => (by rw [show (emit { s with stopQ := rest } [e0]).finished = s.finished from rfl, hf] at hfin; cases hfin), fun k hk => ?_⟩
+      rcases h.all k hk with ⟨g', h1⟩ | h2 | h3
+      · rw [hq] at h1; simp only [List.mem_cons, Prod.mk.injEq] at h1
+        rcases h1 with ⟨rfl, _⟩ | h1
+        · exact Or.inr (Or.inr ⟨e0, by simp [emit], he0⟩)
+        · exact Or.inl ⟨g', h1⟩
+      · exact Or.inr (Or.inl h2)
+      · exact Or.inr (Or.inr (h3.mono ⟨[e0], rfl⟩))
+    by_cases h0 : s.raw = 0
+    · rw [stopPhase_underflow hq h0]
+      exact (hpop (.replyGone k0) (by simp [Ev.resolves])).setFault _
+    · by_cases h1 : Src.wcTotal s.raw = 0
+      · rw [stopPhase_idle hq h0 h1]
+        exact (hpop (.reply k0 true) (by simp [Ev.resolves])).finish false (by simp)
+      · cases g with
+        | false =>
+          rw [stopPhase_forced hq h0 h1]
+          have := hpop (.reply k0 false) (by simp [Ev.resolves])
+          exact Acc.finish (s := emit (shutdownSvcs { s with stopQ := rest } true) [.reply k0 false]) ⟨this.fin, this.all⟩ false (by simp)
+        | true =>
+          rw [stopPhase_graceful hq h0 h1]
+          refine ⟨fun hfin => (by have : s.finished = true := hfin; rw [hf] at this; cases this), fun k hk => ?_⟩
+          have hlog : ∀ {k}, Resolved s k → Resolved ({ (emit (shutdownSvcs { s with stopQ := rest } false) (stateTx s.state ++ [.armTimer (s.now + Src.wkTickFirstMs)])) with
+              state := .shutdown (s.now + Src.wkTickFirstMs) s.now k0 }) k := fun h => h.mono ⟨_, rfl⟩
+          rcases h.all k hk with ⟨g', h1⟩ | ⟨_, h3⟩ | h4
+          · rw [hq] at h1; simp only [List.mem_cons, Prod.mk.injEq] at h1
+            rcases h1 with ⟨rfl, _⟩ | h1
+            · exact Or.inr (Or.inl ⟨hf, rfl⟩)
+            · exact Or.inl ⟨g', h1⟩
+          · -- the sender held by the previous `Shutdown` state is dropped
+            cases hst : s.state with
+            | shutdown t sf tx =>
+              rw [hst] at h3; simp only [holdsTx] at h3; subst h3
+              exact Or.inr (Or.inr ⟨.replyGone tx, by simp [emit, shutdownSvcs, stateTx], by simp [Ev.resolves]⟩)
+            | _ => rw [hst] at h3; simp [holdsTx] at h3
+          · exact Or.inr (Or.inr (hlog h4))
+
+theorem release_acc {s : St} (h : Acc s) (q : List Conn) : Acc (release s q) := by
+  obtain ⟨hc, cs, h2, _⟩ := release_spec q s
+  simp only [core3, Prod.mk.injEq] at hc
+  exact h.frame hc.2.2.2.2.2.1 hc.2.2.2.2.2.2.2.2.2.2.1 hc.2.2.2.2.2.2.2.2.2.2.2.1 (by rw [hc.2.2.2.1]; exact fun _ x => x) ⟨_, h2⟩
+
+theorem drained_acc {s : St} (h : Acc s) : Acc (drained s) := by
+  unfold drained; split
+  · have := release_acc h s.queue; exact ⟨this.fin, this.all⟩
+  · exact release_acc h s.queue
+
+theorem Acc.shutdownArm {s : St} (h : Acc s) (t sf tx : Nat) (hst : s.state = .shutdown t sf tx) : Acc (shutdownArm s t sf tx) := by
+  have hd := drained_acc h
+  have hdst : (drained s).state = .shutdown t sf tx := by
+    have : (drained s).state = (release s s.queue).state := by unfold drained; split <;> rfl
+    rw [this]
+    obtain ⟨hc, _⟩ := release_spec s.queue s
+    simp only [core3, Prod.mk.injEq] at hc; rw [hc.2.2.2.1]; exact hst
+  have hreply : ∀ b, Acc (ActixNet.Worker.finish (emit (drained s) [.reply tx b]) true) := by
+    intro b
+    refine Acc.finish (s := emit (drained s) [.reply tx b]) (hd.frame rfl rfl rfl (fun _ x => x) ⟨_, rfl⟩) true ?_
+    intro _ k hk
+    rw [show (emit (drained s) [.reply tx b]).state = (drained s).state from rfl, hdst] at hk
+    simp only [holdsTx] at hk; subst hk
+    exact ⟨.reply tx b, by simp [emit], by simp [Ev.resolves]⟩
+  cases hf : (release s s.queue).fault.isSome with
+  | true => rw [shutdownArm_fault t sf tx hf]; exact release_acc h _
+  | false =>
+    by_cases c1 : (drained s).now < t
+    · rw [shutdownArm_pending sf tx hf c1]; exact hd
+    · by_cases c2 : (drained s).raw = 0
+      · rw [shutdownArm_underflow sf tx hf c1 c2]; exact hd.setFault _
+      · by_cases c3 : Src.wcTotal (drained s).raw = 0
+        · rw [shutdownArm_true sf tx hf c1 c2 c3]; exact hreply true
+        · cases c4 : Src.wkTimedOut ((drained s).now - sf) (drained s).timeout with
+          | true => rw [shutdownArm_false tx hf c1 c2 c3 c4]; exact hreply false
+          | false =>
+            rw [shutdownArm_rearm tx hf c1 c2 c3 c4]
+            refine hd.frame rfl rfl rfl ?_ ⟨_, rfl⟩
+            intro k hk; rw [hdst] at hk; exact hk
+
+
+
+
+theorem Acc.arm {s : St} (h : Acc s) (hg : Good s) (hf : s.finished = false) : Acc (arm s).1 := by
+  have hsv := hg.svc
+  unfold SvcOK at hsv
+  rw [hf] at hsv; simp only [Bool.false_eq_true, false_or] at hsv
+  cases hst : s.state with
+  | unavailable =>
+    rw [hst] at hsv
+    have hno : ∀ k, holdsTx s.state k → False := by intro k hk; rw [hst] at hk; exact hk
+    rcases hsw : sweep s with ⟨s1, r⟩
+    have hc := sweep_n hsw
+    simp only [core, Prod.mk.injEq] at hc
+    obtain ⟨c1, c2, c3, c4, c5, c6, c7, c8, c9, c10, c11, c12, c13, c14, c15, c16⟩ := hc
+    cases r with
+    | ok b =>
+      obtain ⟨_, evs, d, _, _⟩ := sweep_ok_spec hsw hsv
+      cases b with
+      | true => rw [arm_unavail_true hst hsw]; exact h.frame c6 c12 c13 (fun k hk => (hno k hk).elim) ⟨evs, d⟩
+      | false => rw [arm_unavail_false hst hsw]; exact h.frame c6 c12 c13 (fun k hk => (hno k hk).elim) ⟨evs, d⟩
+    | err i =>
+      obtain ⟨_, _, _, evs, inc, d, _⟩ := sweep_err_spec hsw hsv
+      rw [arm_unavail_err hst hsw]
+      exact h.frame (s' := restartService s1 i) c6 c12 c13 (fun k hk => (hno k hk).elim)
+        ⟨evs ++ [.pollReady i inc .err] ++ [.createService i], by rw [(restartService_frame s1 i).1, d]; simp⟩
+  | restarting tok fp fok sc =>
+    have hno : ∀ k, holdsTx s.state k → False := by intro k hk; rw [hst] at hk; exact hk
+    cases fp with
+    | succ k => rw [arm_restarting_pending hst]; exact h.frame rfl rfl rfl (fun k hk => (hno k hk).elim) ⟨_, rfl⟩
+    | zero => cases fok with
+      | true => rw [arm_restarting_ok hst]; exact h.frame rfl rfl rfl (fun k hk => (hno k hk).elim) ⟨[.facPoll tok .ok], rfl⟩
+      | false => rw [arm_restarting_err hst]; exact h.frame rfl rfl rfl (fun k hk => (hno k hk).elim) ⟨[.facPoll tok .err], rfl⟩
+  | shutdown t sf tx => rw [arm_shutdown hst]; exact h.shutdownArm t sf tx hst
+  | available =>
+    rw [hst] at hsv
+    have hno : ∀ k, holdsTx s.state k → False := by intro k hk; rw [hst] at hk; exact hk
+    have hsp := availLoop_spec s.queue s hsv
+    rcases hal : availLoop s s.queue with ⟨s1, r⟩
+    rw [hal] at hsp
+    obtain ⟨k1, _, ⟨tr, cs, last, g1, _⟩, _⟩ := hsp
+    simp only [core2, Prod.mk.injEq] at k1
+    obtain ⟨c1, c2, c3, c4, c5, c6, c7, c8, c9, c10, c11, c12⟩ := k1
+    have hs1 : Acc s1 := h.frame c5 c10 c11 (fun k hk => (hno k hk).elim) ⟨tr ++ last, by rw [g1]; simp⟩
+    cases r with
+    | pending => rw [arm_avail_pending hst hal]; exact hs1
+    | closed => rw [arm_avail_closed hst hal]; exact hs1.finish false (by simp)
+    | toUnavailable => rw [arm_avail_unavail hst hal]; exact hs1.frame rfl rfl rfl (by rw [c3]; exact fun k hk => (hno k hk).elim) ⟨[], by simp⟩
+    | restart i =>
+      rw [arm_avail_restart hst hal]
+      exact hs1.frame (s' := restartService s1 i) rfl rfl rfl (by rw [c3]; exact fun k hk => (hno k hk).elim) ⟨_, (restartService_frame s1 i).1⟩
+    | fault => rw [arm_avail_fault hst hal]; exact hs1
+
+theorem Acc.body {s : St} (h : Acc s) (hg : Good s) (hf : s.finished = false) : Acc (body s).1 := by
+  unfold ActixNet.Worker.body
+  split
+  · exact h.stopPhase hf
+  · rename_i hc
+    simp only [Bool.or_eq_true, not_or, Bool.not_eq_true] at hc
+    exact (h.stopPhase hf).arm hg.stopPhase ((stopPhase_finished s hc.1).trans hf)
+
+theorem Acc.pollW (f : Nat) : ∀ (s : St), Acc s → Good s → s.finished = false → Acc (pollW f s) := by
+  induction f with
+  | zero => intro s h _ _; exact h.setFault _
+  | succ f ih =>
+    intro s h hg hf
+    simp only [ActixNet.Worker.pollW]
+    obtain ⟨h1, h2⟩ := hg.body hf
+    split
+    · rename_i hb; exact ih _ (h.body hg hf) h1 (h2 hb)
+    · exact h.body hg hf
+
+theorem Acc.step {s : St} (h : Acc s) (hg : Good s) (op : Op) : Acc (step s op).1 := by
+  cases op with
+  | conn tok =>
+    simp only [ActixNet.Worker.step]
+    split
+    · exact h
+    · split
+      · exact h
+      · exact ⟨h.fin, h.all⟩
+  | send tok =>
+    simp only [ActixNet.Worker.step]
+    split
+    · exact h
+    · split
+      · exact h
+      · exact ⟨h.fin, h.all⟩
+  | inc =>
+    simp only [ActixNet.Worker.step]
+    split
+    · exact h
+    · exact ⟨h.fin, h.all⟩
+  | closeChan =>
+    simp only [ActixNet.Worker.step]
+    split
+    · exact h
+    · exact ⟨h.fin, h.all⟩
+  | finish id =>
+    simp only [ActixNet.Worker.step]
+    split
+    · exact h
+    · split
+      · exact ⟨h.fin, h.all⟩
+      · exact h
+  | advance ms =>
+    simp only [ActixNet.Worker.step]
+    split
+    · exact h
+    · exact ⟨h.fin, h.all⟩
+  | stop g =>
+    simp only [ActixNet.Worker.step]
+    split
+    · exact h
+    · split
+      · rename_i hfin
+        refine ⟨fun _ => h.fin hfin, fun k hk => ?_⟩
+        have hk' : k < s.nextStop + 1 := hk
+        by_cases hkn : k = s.nextStop
+        · subst hkn; exact Or.inr (Or.inr ⟨.replyGone s.nextStop, by simp [emit], by simp [Ev.resolves]⟩)
+        · rcases h.all k (by omega) with h1 | h2 | h3
+          · exact Or.inl h1
+          · exact Or.inr (Or.inl h2)
+          · exact Or.inr (Or.inr (h3.mono ⟨_, rfl⟩))
+      · rename_i hfin
+        refine ⟨fun hf => absurd hf hfin, fun k hk => ?_⟩
+        have hk' : k < s.nextStop + 1 := hk
+        by_cases hkn : k = s.nextStop
+        · subst hkn; exact Or.inl ⟨g, by simp⟩
+        · rcases h.all k (by omega) with ⟨g', h1⟩ | h2 | h3
+          · exact Or.inl ⟨g', by simp [h1]⟩
+          · exact Or.inr (Or.inl h2)
+          · exact Or.inr (Or.inr h3)
+  | poll fuel =>
+    simp only [ActixNet.Worker.step]
+    split
+    · exact h
+    · rename_i hc
+      simp only [Bool.or_eq_true, not_or, Bool.not_eq_true] at hc
+      have hg' : Good (emit s [.enter]) := ⟨hg.svc, hg.lg.plain (s' := emit s [.enter]) [.enter] (by intro e he; simp at he; subst he; exact ⟨rfl, rfl, rfl, rfl⟩) rfl rfl rfl rfl⟩
+      exact Acc.pollW fuel _ (h.frame (s' := emit s [.enter]) rfl rfl rfl (fun _ x => x) ⟨_, rfl⟩) hg' hc.2
+
+theorem Acc.init (cfg : Cfg) : Acc (init cfg) := ⟨fun _ => rfl, fun k hk => by simp [ActixNet.Worker.init] at hk⟩
+
+theorem Acc.run (ops : List Op) : ∀ (s : St), Acc s → Good s → Acc (run s ops) := by
+  induction ops with
+  | nil => intro s h _; exact h
+  | cons o os ih => intro s h hg; exact ih _ (h.step hg o) (hg.step o)
+
+
+
+
+theorem timedOut_iff (e T : Nat) : Src.wkTimedOut e T = true ↔ T ≤ e := by simp [Src.wkTimedOut]
+
+theorem drained_ok {s : St} (h : s.queue.length ≤ s.raw) :
+    (release s s.queue).fault = s.fault ∧ (drained s).queue = [] ∧ (drained s).raw = s.raw - s.queue.length ∧
+    (drained s).log = s.log ++ s.queue.map .released ∧ (drained s).state = s.state ∧ (drained s).finished = s.finished ∧
+    (drained s).stopQ = s.stopQ ∧ (drained s).now = s.now ∧ (drained s).inflight = s.inflight ∧ (drained s).fault = s.fault := by
+  unfold drained; rw [release_ok _ _ h]
+  by_cases hc : s.chanOpen = true <;> simp [hc]
+
+/-- **graceful stop, connections in progress**: the poll that takes the `Stop` puts the worker into
+`Shutdown` (tick timer at `now + first tick`, start = `now`), releases every queued connection
+without serving it, leaves the connections in progress alone, does not reply and does not finish -/
+theorem graceful_enters_shutdown_lemma {s : St} {k : Nat} {rest : List (Nat × Bool)} (hq : s.stopQ = (k, true) :: rest)
+    (h1 : Src.wcTotal s.raw ≠ 0) (hfl : s.fault = none) (hcov : s.queue.length ≤ s.raw) (f : Nat) :
+    (pollW (f + 1) s).state = .shutdown (s.now + Src.wkTickFirstMs) s.now k ∧ (pollW (f + 1) s).finished = s.finished ∧
+    (pollW (f + 1) s).queue = [] ∧ (pollW (f + 1) s).inflight = s.inflight ∧ (pollW (f + 1) s).stopQ = rest ∧
+    (pollW (f + 1) s).raw = s.raw - s.queue.length ∧ (pollW (f + 1) s).fault = none ∧
+    (pollW (f + 1) s).log = s.log ++ (stateTx s.state ++ [.armTimer (s.now + Src.wkTickFirstMs)]) ++ s.queue.map .released := by
+  have h0 : s.raw ≠ 0 := by intro h; rw [h] at h1; simp [Src.wcTotal] at h1
+  rw [pollW_stop_graceful hq h0 h1 hfl]
+  generalize hS : ({ (emit (shutdownSvcs { s with stopQ := rest } false) (stateTx s.state ++ [.armTimer (s.now + Src.wkTickFirstMs)])) with
+      state := .shutdown (s.now + Src.wkTickFirstMs) s.now k } : St) = S
+  have e1 : S.queue = s.queue := by subst hS; rfl
+  have e2 : S.raw = s.raw := by subst hS; rfl
+  have e3 : S.now = s.now := by subst hS; rfl
+  have e4 : S.fault = s.fault := by subst hS; rfl
+  obtain ⟨d1, d2, d3, d4, d5, d6, d7, d8, d9, d10⟩ := drained_ok (s := S) (by rw [e1, e2]; exact hcov)
+  have hf : (release S S.queue).fault.isSome = false := by rw [d1, e4, hfl]; rfl
+  have hlt : (drained S).now < s.now + Src.wkTickFirstMs := by rw [d8, e3]; simp [Src.wkTickFirstMs]
+  rw [shutdownArm_pending s.now k hf hlt]
+  subst hS
+  exact ⟨d5, d6, d2, d9, d7, d3, d10.trans hfl, by rw [d4]; simp [emit, shutdownSvcs]⟩
+
+/-- **one poll of a worker in `Shutdown`** (no further `Stop`, channel already drained): it finishes
+exactly when its tick timer has fired and either nothing is in progress any more (reply `true`) or
+`shutdown_timeout` has elapsed since it took the stop (reply `false`) -/
+theorem shutdown_poll_lemma {s : St} {t sf tx : Nat} (hst : s.state = .shutdown t sf tx) (hq : s.stopQ = [])
+    (hfl : s.fault = none) (hqueue : s.queue = []) (hraw : s.raw ≠ 0) (hfin : s.finished = false) (f : Nat) :
+    ((pollW (f + 1) s).finished = true ↔ t ≤ s.now ∧ (Src.wcTotal s.raw = 0 ∨ s.timeout ≤ s.now - sf)) ∧
+    ∃ evs, (pollW (f + 1) s).log = s.log ++ evs ∧
+      (.reply tx true ∈ evs ↔ t ≤ s.now ∧ Src.wcTotal s.raw = 0) ∧
+      (.reply tx false ∈ evs ↔ t ≤ s.now ∧ Src.wcTotal s.raw ≠ 0 ∧ s.timeout ≤ s.now - sf) ∧
+      (∀ k b, .reply k b ∈ evs → k = tx) := by
+  rw [pollW_shutdown_nostop hst hq hfl f]
+  generalize he : ({ s with stopWaker := true } : St) = e
+  have heq : e.queue = [] := by subst he; exact hqueue
+  obtain ⟨d1, d2, d3, d4, d5, d6, d7, d8, d9, d10⟩ := drained_empty heq
+  have r1 : e.raw = s.raw := by subst he; rfl
+  have r2 : e.now = s.now := by subst he; rfl
+  have r3 : e.timeout = s.timeout := by subst he; rfl
+  have r4 : e.fault = none := by subst he; exact hfl
+  have r5 : e.log = s.log := by subst he; rfl
+  have r6 : e.finished = false := by subst he; exact hfin
+  have r7 : e.stopQ = [] := by subst he; exact hq
+  have hf : (release e e.queue).fault.isSome = false := by rw [d10, r4]; rfl
+  by_cases c1 : (drained e).now < t
+  · rw [shutdownArm_pending sf tx hf c1]
+    have : ¬ t ≤ s.now := by rw [d8, r2] at c1; omega
+    refine ⟨by rw [d5, r6]; simp [this], [], by rw [d7, r5]; simp, by simp [this], by simp [this], by simp⟩
+  · have c1' : t ≤ s.now := by rw [d8, r2] at c1; omega
+    have c2 : (drained e).raw ≠ 0 := by rw [d1, r1]; exact hraw
+    by_cases c3 : Src.wcTotal (drained e).raw = 0
+    · rw [shutdownArm_true sf tx hf c1 c2 c3]
+      have c3' : Src.wcTotal s.raw = 0 := by rw [d1, r1] at c3; exact c3
+      refine ⟨by simp [finish, c1', c3'], [.reply tx true] ++ ([.done] ++ goneEvs (drained e).stopQ ++ (drained e).queue.map .dropped), ?_, ?_, ?_, ?_⟩
+      · rw [finish_log]; simp [emit, d7, r5]
+      · rw [d3, r7, d6]; simp [goneEvs, c1', c3']
+      · rw [d3, r7, d6]; simp [goneEvs, c3']
+      · rw [d3, r7, d6]; intro k b hm; simp [goneEvs] at hm; exact hm.1
+    · have c3' : Src.wcTotal s.raw ≠ 0 := by rw [d1, r1] at c3; exact c3
+      cases c4 : Src.wkTimedOut ((drained e).now - sf) (drained e).timeout with
+      | true =>
+        rw [shutdownArm_false tx hf c1 c2 c3 c4]
+        have c4' : s.timeout ≤ s.now - sf := by rw [d8, d9, r2, r3, timedOut_iff] at c4; exact c4
+        refine ⟨by simp [finish, c1', c4'], [.reply tx false] ++ ([.done] ++ goneEvs (drained e).stopQ ++ (drained e).queue.map .dropped), ?_, ?_, ?_, ?_⟩
+        · rw [finish_log]; simp [emit, d7, r5]
+        · rw [d3, r7, d6]; simp [goneEvs, c3']
+        · rw [d3, r7, d6]; simp [goneEvs, c1', c3', c4']
+        · rw [d3, r7, d6]; intro k b hm; simp [goneEvs] at hm; exact hm.1
+      | false =>
+        rw [shutdownArm_rearm tx hf c1 c2 c3 c4]
+        have c4' : ¬ s.timeout ≤ s.now - sf := by
+          intro h; rw [d8, d9, r2, r3] at c4
+          have := (timedOut_iff _ _).2 h; rw [c4] at this; cases this
+        refine ⟨?_, [.armTimer ((drained e).now + Src.wkTickNextMs)], by simp [emit, d7, r5], by simp [c3'], by simp [c4'], by simp⟩
+        show (drained e).finished = true ↔ _
+        rw [d5, r6]; simp [c3', c4']
 
 
 end ActixNet.Worker
